@@ -12,8 +12,8 @@ mut('rev-D1-dirty-never-set', (D, "        self.dirty = true;\n        if let So
 mut('rev-D1b-sync-after-flush', (D, "            self.unsynced = true;\n", ""))
 mut('rev-D2-bitmap-stepback', (H, "if idx > start_idx {", "if idx >= 8 * 8 {"))
 mut('rev-D3-small-table-underflow', (H, "idx + 8 < buckets_size {", "idx < buckets_size - 8 {"))
-mut('rev-D4-large-slot-size-val', (V, "(free_piece_offset, free_piece_size)", "(free_piece_offset, new_piece_size)"))
-mut('rev-D4-large-slot-size-key', (K, "(free_piece_offset, free_piece_size)", "(free_piece_offset, new_piece_size)"))
+mut('rev-D4-large-slot-size-val', (V, "                let free_piece_size = self.0.read_piece_size()?;\n                (free_piece_offset, free_piece_size)", "                (free_piece_offset, new_piece_size)"))
+mut('rev-D4-large-slot-size-key', (K, "                let free_piece_size = self.0.read_piece_size()?;\n                (free_piece_offset, free_piece_size)", "                (free_piece_offset, new_piece_size)"))
 mut('rev-D5-relink-put', (D, "                _cold();\n                self.relink_moved_key_piece(hash, key_offset, new_key_offset)?;", "                unimplemented!(\"key_offset != new_key_offset : in put_kt\");"))
 mut('rev-D5-relink-del', (D, "                    self.relink_moved_key_piece(hash, _prev_key_offset, new_prev_key.offset)?;", "                    panic!(\"_prev_key_offset != new_prev_key_offset : in del_kt\");"))
 mut('rev-D6-size-clamp', (V, "(val / dat_buf_chunk_size).max(2)", "val / dat_buf_chunk_size"))
